@@ -176,6 +176,10 @@ func (ex *Exec) recordAccess(p Ptr, write bool) {
 	if !ex.recording {
 		return
 	}
+	// RacePair: only cells that existed before the pair started are shared state
+	if ex.raceMark > 0 && p.obj != nil && !p.obj.frozen && p.obj.id > ex.raceMark {
+		return
+	}
 	ex.accesses = append(ex.accesses, accessRec{tag: ex.recTag, cell: ex.cellName(p), write: write, locks: ex.heldLocks(), pos: ex.curPos})
 }
 
